@@ -624,8 +624,11 @@ class Assembler:
         seq = [t.text for t in tokenize(anchor) if t.kind not in (WS, COMMENT)]
         n = len(seq)
         cnt = 0
+        removed = getattr(self, "_removed", [])
         for k in range(a, b - n + 1):
             if v.t[k].text == seq[0] and [v.text(q) for q in range(k, k + n)] == seq:
+                if any(ra <= k < rb for ra, rb in removed):
+                    continue
                 cnt += 1
                 if cnt == occ:
                     return k, k + n
@@ -701,7 +704,10 @@ class Assembler:
             inserts.append(Ins(body_open, spec, f"spec:{fs.path}:{mode}", 1))
 
         if mode in ("home", "strict"):
-            loops = self.find_loops(v, body_a, body_b)
+            # text removed by cfg evaluation (R1/R2) is invisible to loop ordinals and anchors
+            removed = [(e.a, e.b) for e in edits if e.rule in ("R1", "R2") and e.text == "" and e.b - e.a > 3]
+            self._removed = removed
+            loops = [l for l in self.find_loops(v, body_a, body_b) if not any(ra <= l[0] < rb for ra, rb in removed)]
             for n, (itname, ltext) in fs.loops.items():
                 if n > len(loops):
                     raise ExtractError(f"lost anchor: {fs.path} has {len(loops)} loops, contract names loop {n}")
